@@ -25,10 +25,7 @@ var c17Filters = map[string]func(string) bool{
 // (3) random and adversarial inputs on orders 2..8.  One event per call; TLC judges the real output.
 func c17Record(tier string, seed int64, emit func(interface{})) {
 	rng := rand.New(rand.NewSource(seed))
-	maxOrder := 7
-	if tier == "thorough" {
-		maxOrder = 8
-	}
+	maxOrder := 8
 	dbs := map[int]string{}
 	for n := 1; n <= maxOrder; n++ {
 		dbs[n] = primers.NucleobaseDeBruijnSequence(n)
@@ -92,6 +89,19 @@ func c17Record(tier string, seed int64, emit func(interface{})) {
 	nRand := 150
 	if tier == "thorough" {
 		nRand = 2500
+	}
+	// long slides: at the low-complexity start of a high-order sequence a ban and a first-base filter keep pushing
+	// the window one base at a time for more than a thousand moves before it settles
+	for _, n := range []int{7, 8} {
+		for _, length := range []int{n, n + 1} {
+			for _, bans := range [][]string{{"AA"}, {"TT"}, {"AA", "AT", "AG", "AC"}, {"AAA"}} {
+				for _, fl := range [][]string{{"notA"}, {}} {
+					if tier == "thorough" || (n == 8 && length == 8) || len(bans) == 1 {
+						call(n, length, bans, fl)
+					}
+				}
+			}
+		}
 	}
 	fnames := []string{"noGG", "notA", "gcMax", "noHomo3"}
 	for i := 0; i < nRand; i++ {
